@@ -33,6 +33,7 @@ type Config struct {
 	AsyncQueueSize    int
 	FenceTable        string
 	Extra             string // raw yaml appended under "seata:"
+	ClientExtra       string // raw yaml appended under "seata: client:" (4 spaces of indentation), e.g. the xa section
 }
 
 func DefaultConfig() Config {
@@ -108,7 +109,7 @@ func InitClient(c Config) {
         enable: %s
         type: %s
         threshold: %s
-  service:
+%s  service:
     vgroup-mapping:
       default_tx_group: default
     grouplist:
@@ -125,7 +126,7 @@ func InitClient(c Config) {
     load-balance-type: %s
 %s`, c.ReportRetry, b(c.ReportSuccess), c.LockRetryInterval, c.LockRetryTimes, c.CommitRetry, c.RollbackRetry,
 			b(c.DataValidation), c.Serialization, b(c.OnlyCareUpdate), b(c.CompressEnable), c.CompressType,
-			c.CompressThreshold, c.FenceTable, c.LoadBalance, c.Extra)
+			c.CompressThreshold, c.ClientExtra, c.FenceTable, c.LoadBalance, c.Extra)
 		path := filepath.Join(dir, "seatago.yml")
 		if err := os.WriteFile(path, []byte(yaml), 0o644); err != nil {
 			panic(err)
